@@ -257,6 +257,10 @@ class Engine:
                 return "proved", "z3(retry)", None, None
             if r == z3.sat:
                 return "refuted", "z3(retry)", s.model(), None
+            if r == z3.unknown and self.use_cvc5 and smt2 is not None:
+                # ... and the same for cvc5 (a loaded machine must not turn a proof into `undecided`)
+                if run_cvc5(smt2, self.timeout_ms * 5) == "unsat":
+                    return "proved", "cvc5(retry)", None, None
         # refutation pass: quantified hypotheses replaced by finitely many instances; the model is
         # only a *candidate* (the replay on the real code is the judge)
         m = self._refute(g)
